@@ -251,25 +251,7 @@ func (r *Receiver) SegmentHandlerFunc(w http.ResponseWriter, req *http.Request) 
 					}
 				}
 				if maxNrBufSegs > 0 {
-					deleteNrs := []uint32{rsd.seqNr - maxNrBufSegs}
-					if rsd.isShifted {
-						// The segments received before the shift was known are stored under their incoming numbers.
-						// They leave the storage at the same pace, unless that number lies inside the current window.
-						oldNr := rsd.seqNrIn - uint32(ch.startNr) - maxNrBufSegs
-						if oldNr < rsd.seqNr-maxNrBufSegs || oldNr > rsd.seqNr {
-							deleteNrs = append(deleteNrs, oldNr)
-						}
-					}
-					for _, deleteNr := range deleteNrs {
-						deleteSegPath := filepath.Join(stream.trDir, fmt.Sprintf("%d%s", deleteNr, stream.ext))
-						if fileExists(deleteSegPath) {
-							log.Debug("Deleting old segment", "path", deleteSegPath)
-							err = os.Remove(deleteSegPath)
-							if err != nil {
-								log.Warn("Failed to delete old segment", "path", deleteSegPath, "err", err)
-							}
-						}
-					}
+					removeOldSegments(log, stream.trDir, stream.ext, rsd, uint32(ch.startNr), maxNrBufSegs)
 				}
 			}
 			//TODO. Add test cases for multiple-chunks rewrite
@@ -517,4 +499,41 @@ func handleMPD(w http.ResponseWriter, req *http.Request, storage, chName string)
 	finalClose(req.Body)
 	slog.Info("MPD received", "path", req.URL.Path, "storedPath", receivedMpdPath)
 	w.WriteHeader(http.StatusOK)
+}
+
+// removeOldSegments removes the stored media segments of a track that have left the window of maxNrBufSegs numbers
+// ending at the segment just received. All of them go, not only number seqNr-maxNrBufSegs, so that a missing
+// segment (an outage) does not leave older files behind. For a shifted channel, the segments received before the shift
+// was known are stored under their incoming numbers, which may lie far above the renumbered ones: they go at the same pace.
+func removeOldSegments(log *slog.Logger, trDir, ext string, rsd *recSegData, startNr, maxNrBufSegs uint32) {
+	if rsd.seqNr < maxNrBufSegs {
+		return
+	}
+	limit := rsd.seqNr - maxNrBufSegs
+	var oldLimit uint32 // Last incoming number that has left the window (shifted channels only)
+	if rsd.isShifted && rsd.seqNrIn >= startNr+maxNrBufSegs {
+		oldLimit = rsd.seqNrIn - startNr - maxNrBufSegs
+	}
+	entries, err := os.ReadDir(trDir)
+	if err != nil {
+		return
+	}
+	for _, e := range entries {
+		name := e.Name()
+		if !strings.HasSuffix(name, ext) {
+			continue
+		}
+		n, err := strconv.ParseUint(strings.TrimSuffix(name, ext), 10, 32)
+		if err != nil {
+			continue // init segments
+		}
+		nr := uint32(n)
+		if nr <= limit || (nr > rsd.seqNr+maxNrBufSegs && nr <= oldLimit) {
+			deleteSegPath := filepath.Join(trDir, name)
+			log.Debug("Deleting old segment", "path", deleteSegPath)
+			if err := os.Remove(deleteSegPath); err != nil {
+				log.Warn("Failed to delete old segment", "path", deleteSegPath, "err", err)
+			}
+		}
+	}
 }
